@@ -1,6 +1,7 @@
 /-
   C12 — model of the string matching in `crates/ruma-common/src/push/condition.rs`:
-  `StrExt::{matches_pattern, matches_word, wildcards_to_regex}`, `CharExt::is_word_char`.
+  `StrExt::{matches_pattern, contains_word, matches_word, matches_word_impl, wildcards_to_regex}`,
+  `CharExt::is_word_char`.
 
   Text is `List Char`. The Rust code indexes `&str` by bytes, but every index it computes is a
   char boundary (`find` of a valid UTF-8 needle, `char_indices`, `char_len`), and it only ever
@@ -250,12 +251,22 @@ decreasing_by
   have h3 := nextWord_length h2
   omega
 
-/-- `StrExt::matches_word` (value and pattern already lower-cased). -/
-def matchesWord (E : Ext) (p s : Text) : Res :=
+/-- `StrExt::matches_word_impl` (value and pattern already lower-cased): the `self == pattern`
+shortcut, the empty pattern, then the chunked regular expression if `hasWildcards`, else the scanner
+(whose recursive call passes `has_wildcards = false` again). -/
+def matchesWordImpl (E : Ext) (hasWildcards : Bool) (p s : Text) : Res :=
   if s = p then .ok true
   else if p.isEmpty then .ok false
-  else if p.any isWild then .ok (E.rxMatch (chunks p) s)
+  else if hasWildcards then .ok (E.rxMatch (chunks p) s)
   else scanLit p s
+
+/-- `StrExt::matches_word`: `has_wildcards = pattern.contains(['?', '*'])`. -/
+def matchesWord (E : Ext) (p s : Text) : Res := matchesWordImpl E (p.any isWild) p s
+
+/-- `StrExt::contains_word`: the word is literal text (`has_wildcards = false` whatever it contains);
+both sides are lower-cased. Used for `contains_display_name`. -/
+def containsWord (E : Ext) (value word : Text) : Res :=
+  matchesWordImpl E false (E.lower word) (E.lower value)
 
 /-- `StrExt::matches_pattern`. -/
 def matchesPattern (E : Ext) (value pattern : Text) (matchWords : Bool) : Res :=
